@@ -33,6 +33,7 @@ type FS struct {
 	// ReadOnlyDirs lists directories in which entries cannot be created,
 	// renamed or removed (EACCES), like a directory without write permission.
 	ReadOnlyDirs map[string]bool
+	sticky       map[string]Fault // op kind -> persistent fault (see Fault.Sticky)
 }
 
 type inode struct {
@@ -59,6 +60,9 @@ type FsOp struct {
 type Fault struct {
 	Kind string `json:"kind"` // enoent eacces eisdir eio enospc trunc flip crash
 	Arg  int    `json:"arg,omitempty"`
+	// Sticky: the condition persists (a full or read-only disk, a file system that
+	// refuses the call): every later operation of the same kind fails the same way.
+	Sticky bool `json:"sticky,omitempty"`
 }
 
 func NewFS() *FS {
@@ -192,8 +196,17 @@ func (f *FS) begin(op FsOp) (*FsOp, *Fault) {
 		}
 	}
 	var flt *Fault
+	if fl, ok := f.sticky[op.Op]; ok {
+		flt = &fl
+	}
 	if fl, ok := f.Plan[op.N]; ok {
 		flt = &fl
+		if fl.Sticky && fl.Kind != "crash" {
+			if f.sticky == nil {
+				f.sticky = map[string]Fault{}
+			}
+			f.sticky[op.Op] = fl
+		}
 		if fl.Kind == "crash" {
 			f.Fired["crash"]++
 			op.Fault = "crash"
